@@ -135,18 +135,21 @@ Definition opt_susp (s : joblist) (o : option nat) : option bool :=
   | Some i => match get s i with Some j => Some (suspended j) | None => Some false end
   end.
 
+(* first half of `insert`: place the job in the slab and the pid index *)
+Definition insert_place (s : joblist) (j : job) : joblist * nat :=
+  match find_by_pid s (jpid j) with
+  | None =>
+      let '(sl, fr, index) := slab_insert (slots s) (free s) j in
+      (mkJL sl fr ((jpid j, index) :: pidx s) (cur s) (prev s), index)
+  | Some index =>
+      (mkJL (set_slot (slots s) index (Some j)) (free s) (pidx s) (cur s) (prev s), index)
+  end.
+
 Definition insert (s : joblist) (j : job) : joblist * nat :=
   let new_susp := suspended j in
   let exc := opt_susp s (current_job s) in
   let exp := opt_susp s (previous_job s) in
-  let '(s1, index) :=
-    match find_by_pid s (jpid j) with
-    | None =>
-        let '(sl, fr, index) := slab_insert (slots s) (free s) j in
-        (mkJL sl fr ((jpid j, index) :: pidx s) (cur s) (prev s), index)
-    | Some index =>
-        (mkJL (set_slot (slots s) index (Some j)) (free s) (pidx s) (cur s) (prev s), index)
-    end in
+  let '(s1, index) := insert_place s j in
   let s2 :=
     match exc with
     | None => with_cur s1 index
@@ -171,7 +174,13 @@ Definition insert_panics (s : joblist) (j : job) : bool :=
   match find_by_pid s (jpid j) with
   | Some index => negb (contains s index)
   | None => false
-  end.
+  end
+  || match opt_susp s (current_job s) with
+     | Some false =>
+         suspended j &&
+         negb (N.eqb (snd (set_current_job (fst (insert_place s j)) (snd (insert_place s j)))) 0)
+     | _ => false
+     end.
 
 (* --- remove --------------------------------------------------------- *)
 
